@@ -1,3 +1,936 @@
-//! C09 — not yet built
-use crate::ctx::Ctx;
-pub fn run(c: &mut Ctx) { c.notes.push("C09: not implemented".into()); }
+//! C09 — stream filters decode as specified; compression is lossless.
+//!
+//! Generators: reference ENCODERS owned by the harness (PNG filters from the PNG specification,
+//! ASCII85 from ISO 32000-1 §7.4.3, flate2's zlib encoder, weezl's LZW encoder with and without the
+//! TIFF size switch) turn a plaintext into the content of a stream with a filter chain of length
+//! 1…3 and predictor / geometry / EarlyChange parameters in dictionary or array form.
+//! Real code: `Stream::{decompressed_content, get_plain_content, decompress, compress, set_content,
+//! set_plain_content, filters}`, `Document::{compress, decompress}`, `filters::png::{decode_row,
+//! decode_frame}` — all through the public API, in-process.
+//! Correspondence: ops `a85`, `pngrow`, `pngframe`, `filters`, `decode`, `plain`, `decompress`,
+//! `compress`, `setcontent`, `setplain`, `doccompress`, `docdecompress` of lean/Driver/C09.lean; the
+//! results of flate2 / weezl on the inputs the chain feeds them are shipped as `ext` data.
+//! Oracle (independent of model and lopdf): the original plaintext; an own PNG reference decoder
+//! for arbitrary filtered rows; `Length = |content|`; not-longer; untouched objects.
+use crate::codec::*;
+use crate::ctx::{guard, Ctx};
+use crate::rng::Rng;
+use lopdf::filters::png;
+use lopdf::{Dictionary, Document, Object, Stream};
+use serde_json::json;
+use std::io::{Read, Write};
+
+// ---------------------------------------------------------------- reference encoders / decoders
+
+fn ref_paeth(a: u8, b: u8, c: u8) -> u8 {
+    let (ia, ib, ic) = (a as i64, b as i64, c as i64);
+    let p = ia + ib - ic;
+    let (pa, pb, pc) = ((p - ia).abs(), (p - ib).abs(), (p - ic).abs());
+    if pa <= pb && pa <= pc { a } else if pb <= pc { b } else { c }
+}
+fn ref_pred(t: u8, a: u8, b: u8, c: u8) -> u8 {
+    match t { 0 => 0, 1 => a, 2 => b, 3 => ((a as u32 + b as u32) / 2) as u8, _ => ref_paeth(a, b, c) }
+}
+/// PNG §9: Filt(x) = Orig(x) - Pred(Orig(a), Orig(b), Orig(c))
+fn ref_encode_row(t: u8, bpp: usize, prev: &[u8], cur: &[u8]) -> Vec<u8> {
+    (0..cur.len()).map(|i| {
+        let a = if i >= bpp { cur[i - bpp] } else { 0 };
+        let b = prev.get(i).copied().unwrap_or(0);
+        let c = if i >= bpp { prev.get(i - bpp).copied().unwrap_or(0) } else { 0 };
+        cur[i].wrapping_sub(ref_pred(t, a, b, c))
+    }).collect()
+}
+/// PNG §9: Recon(x) = Filt(x) + Pred(Recon(a), Recon(b), Recon(c))
+fn ref_decode_row(t: u8, bpp: usize, prev: &[u8], filt: &[u8]) -> Vec<u8> {
+    let mut out: Vec<u8> = Vec::with_capacity(filt.len());
+    for i in 0..filt.len() {
+        let a = if i >= bpp { out[i - bpp] } else { 0 };
+        let b = prev.get(i).copied().unwrap_or(0);
+        let c = if i >= bpp { prev.get(i - bpp).copied().unwrap_or(0) } else { 0 };
+        out.push(filt[i].wrapping_add(ref_pred(t, a, b, c)));
+    }
+    out
+}
+/// rows of `rowlen` bytes, each preceded by its filter type; row above the first = 0
+fn ref_encode_frame(data: &[u8], bpp: usize, rowlen: usize, types: &[u8]) -> Vec<u8> {
+    let mut out = vec![];
+    let mut prev = vec![0u8; rowlen];
+    for (k, row) in data.chunks(rowlen.max(1)).enumerate() {
+        let t = types[k % types.len()];
+        out.push(t);
+        out.extend(ref_encode_row(t, bpp, &prev, row));
+        prev = row.to_vec();
+    }
+    out
+}
+
+#[derive(Clone, Copy)]
+struct A85Style { use_z: bool, wrap: usize, ws: u8, eod: bool }
+/// ISO 32000-1 §7.4.3 encoder
+fn ref_a85_encode(x: &[u8], st: A85Style) -> Vec<u8> {
+    let mut digits: Vec<u8> = vec![];
+    for g in x.chunks(4) {
+        let mut v: u64 = 0;
+        for i in 0..4 { v = v * 256 + *g.get(i).unwrap_or(&0) as u64; }
+        if g.len() == 4 && v == 0 && st.use_z { digits.push(b'z'); continue; }
+        let mut d = [0u8; 5];
+        for i in (0..5).rev() { d[i] = (v % 85) as u8 + b'!'; v /= 85; }
+        digits.extend_from_slice(&d[..g.len() + 1]);
+    }
+    let mut out = vec![];
+    for (i, d) in digits.iter().enumerate() {
+        if st.wrap > 0 && i > 0 && i % st.wrap == 0 { out.push(st.ws); }
+        out.push(*d);
+    }
+    if st.eod { out.extend_from_slice(b"~>"); }
+    out
+}
+
+fn zlib_encode(x: &[u8], level: u32) -> Vec<u8> {
+    let mut e = flate2::write::ZlibEncoder::new(Vec::new(), flate2::Compression::new(level));
+    e.write_all(x).unwrap();
+    e.finish().unwrap()
+}
+/// exactly what `Stream::compress` asks of flate2
+fn zlib_best(x: &[u8]) -> Vec<u8> {
+    let mut e = flate2::write::ZlibEncoder::new(Vec::new(), flate2::Compression::best());
+    e.write_all(x).unwrap();
+    e.finish().unwrap()
+}
+/// exactly what `decompress_zlib` asks of flate2 (errors ignored, partial output kept)
+fn ext_inflate(input: &[u8]) -> Vec<u8> {
+    let mut out = Vec::new();
+    if !input.is_empty() { let _ = flate2::read::ZlibDecoder::new(input).read_to_end(&mut out); }
+    out
+}
+fn lzw_encode(x: &[u8], early: bool) -> Vec<u8> {
+    use weezl::{encode::Encoder, BitOrder};
+    let mut e = if early { Encoder::with_tiff_size_switch(BitOrder::Msb, 8) } else { Encoder::new(BitOrder::Msb, 8) };
+    e.encode(x).unwrap()
+}
+/// exactly what `decompress_lzw` asks of weezl
+fn ext_lzw(input: &[u8], early: bool) -> Vec<u8> {
+    use weezl::{decode::Decoder, BitOrder};
+    let mut d = if early { Decoder::with_tiff_size_switch(BitOrder::Msb, 8) } else { Decoder::new(BitOrder::Msb, 8) };
+    let mut out = vec![];
+    let _ = d.into_stream(&mut out).decode_all(input);
+    out
+}
+
+// ---------------------------------------------------------------- protocol helpers
+
+fn out_reply(r: &Result<Result<Vec<u8>, lopdf::Error>, (String, String)>) -> String {
+    match r { Ok(Ok(v)) => format!("ok {}", hex_tok(v)), Ok(Err(_)) => "err".into(), Err(_) => "panic".into() }
+}
+fn stream_tok(s: &Stream) -> String { show_obj(&Object::Stream(s.clone())) }
+
+#[derive(Default)]
+struct ExtTab(Vec<(String, Vec<u8>, Vec<u8>)>);
+impl ExtTab {
+    fn add(&mut self, kind: &str, i: &[u8], o: Vec<u8>) {
+        if !self.0.iter().any(|(k, a, _)| k == kind && a == i) { self.0.push((kind.into(), i.to_vec(), o)); }
+    }
+    fn text(&self) -> String {
+        let mut s = self.0.len().to_string();
+        for (k, i, o) in &self.0 { s.push_str(&format!(" {} {} {}", k, hex_tok(i), hex_tok(o))); }
+        s
+    }
+}
+/// external results for every Flate / LZW stage input the REAL chain reaches: the input of stage
+/// k+1 is obtained by running lopdf on the first k filters (facts about flate2 / weezl only).
+fn ext_for(s: &Stream) -> ExtTab {
+    let mut tab = ExtTab::default();
+    let Ok(filters) = s.filters() else { return tab };
+    let filters: Vec<Vec<u8>> = filters.into_iter().map(|f| f.to_vec()).collect();
+    let mut input = s.content.clone();
+    for (k, f) in filters.iter().enumerate() {
+        match f.as_slice() {
+            b"FlateDecode" => tab.add("z", &input, ext_inflate(&input)),
+            b"LZWDecode" => { tab.add("l0", &input, ext_lzw(&input, false)); tab.add("l1", &input, ext_lzw(&input, true)); }
+            _ => {}
+        }
+        if k + 1 == filters.len() { break; }
+        let mut p = s.clone();
+        p.dict.set("Filter", Object::Array(filters[..=k].iter().map(|n| Object::Name(n.clone())).collect()));
+        match guard(|| p.decompressed_content()) { Ok(Ok(v)) => input = v, _ => break }
+    }
+    tab
+}
+
+// ---------------------------------------------------------------- ASCII85
+
+fn a85_stream(content: Vec<u8>) -> Stream {
+    let mut d = Dictionary::new();
+    d.set("Filter", Object::Name(b"ASCII85Decode".to_vec()));
+    Stream::new(d, content)
+}
+fn a85_real(content: &[u8]) -> Result<Result<Vec<u8>, lopdf::Error>, (String, String)> {
+    let s = a85_stream(content.to_vec());
+    guard(|| s.decompressed_content())
+}
+fn a85_check_valid(c: &mut Ctx, x: &[u8], st: A85Style, stream: &str) {
+    let enc = ref_a85_encode(x, st);
+    let r = a85_real(&enc);
+    let req = format!("a85 {}", hex_tok(&enc));
+    c.corr(req.clone(), out_reply(&r));
+    c.count(&format!("{}.cases", stream));
+    match &r {
+        Ok(Ok(v)) if v == x => {}
+        Ok(Ok(v)) => c.oracle_fail("a85-wrong", "ASCII85Decode of a reference-encoded string is not the original",
+            json!({"plain": hex(x), "encoded": String::from_utf8_lossy(&enc), "decoded": hex(v)})),
+        Ok(Err(e)) => c.oracle_fail("a85-error", "ASCII85Decode rejects a reference-encoded string",
+            json!({"plain": hex(x), "encoded": String::from_utf8_lossy(&enc), "error": format!("{}", e)})),
+        Err((site, msg)) => c.oracle_fail(&format!("panic@{}", site), msg, json!({"plain": hex(x), "encoded": String::from_utf8_lossy(&enc)})),
+    }
+}
+fn gen_plain(r: &mut Rng, maxlen: usize) -> Vec<u8> {
+    let n = match r.below(10) { 0 => 0, 1..=5 => r.usize(maxlen / 4 + 1), _ => r.usize(maxlen + 1) };
+    let mode = r.below(6);
+    (0..n).map(|i| match mode {
+        0 => r.byte(),
+        1 => if r.chance(1, 2) { 0 } else { r.byte() },
+        2 => 0,
+        3 => 255,
+        4 => (i % 7) as u8 * 31,
+        _ => *r.pick(&[0u8, 1, 84, 85, 127, 128, 254, 255]),
+    }).collect()
+}
+fn gen_style(r: &mut Rng) -> A85Style {
+    A85Style { use_z: r.chance(3, 4), wrap: if r.chance(1, 2) { 0 } else { 1 + r.usize(20) }, ws: *r.pick(&[b' ', b'\n', b'\r', b'\t', 12u8]), eod: true }
+}
+
+fn run_a85(c: &mut Ctx) {
+    let plain_style = A85Style { use_z: true, wrap: 0, ws: b'\n', eod: true };
+    // random strings, random layout
+    for i in 0..c.n(1500, 20000) {
+        let Some(mut r) = c.case("a85.valid", i) else { continue };
+        let x = gen_plain(&mut r, 40);
+        let st = gen_style(&mut r);
+        if x.len() >= 1 { c.nontrivial(&format!("a85 {}", hex(&x))); }
+        if x.len() % 4 != 0 { c.count(&format!("a85.partial_len{}", x.len() % 4)); }
+        if x.chunks(4).any(|g| g == [0, 0, 0, 0]) { c.count(if st.use_z { "a85.z_group" } else { "a85.zero_group_as_digits" }); }
+        a85_check_valid(c, &x, st, "a85.valid");
+    }
+    // every partial final group of 1 byte; of 2 bytes: all (thorough) / a lattice + random (quick); 3 bytes: sample + corners
+    for a in 0..256u64 {
+        let Some(_) = c.case("a85.partial1", a) else { continue };
+        a85_check_valid(c, &[a as u8], plain_style, "a85.partial1");
+    }
+    let n2 = c.n(4096, 65536);
+    for i in 0..n2 {
+        let Some(mut r) = c.case("a85.partial2", i) else { continue };
+        let v = if c.quick() { (r.below(65536)) as u32 } else { i as u32 };
+        a85_check_valid(c, &[(v >> 8) as u8, v as u8], plain_style, "a85.partial2");
+    }
+    for i in 0..c.n(4096, 200000) {
+        let Some(mut r) = c.case("a85.partial3", i) else { continue };
+        let corners = [0u8, 1, 84, 85, 254, 255];
+        let x = if i < 216 { let k = i as usize; vec![corners[k % 6], corners[k / 6 % 6], corners[k / 36]] } else { r.bytes(3) };
+        // preceded by 0..2 full groups so that the state before the partial group varies
+        let k = 4 * r.usize(3); let mut pre = r.bytes(k);
+        pre.extend(x);
+        a85_check_valid(c, &pre, plain_style, "a85.partial3");
+    }
+    // malformed / unusual: correspondence + no panic
+    for i in 0..c.n(1500, 20000) {
+        let Some(mut r) = c.case("a85.malformed", i) else { continue };
+        let x = gen_plain(&mut r, 24);
+        let mut st = gen_style(&mut r);
+        st.eod = r.chance(3, 4);
+        let mut enc = ref_a85_encode(&x, st);
+        for _ in 0..1 + r.usize(3) {
+            let pos = r.usize(enc.len() + 1);
+            match r.below(12) {
+                0 => enc.insert(pos, b'z'),
+                1 => enc.insert(pos, *r.pick(&[0u8, 11, 0x7f, b'v', b'w', b'x', b'y', b'{', b'~', b'>', 0x80, 0xff])),
+                2 => enc.insert(pos, b'u'),
+                3 => { for _ in 0..5 { enc.insert(pos.min(enc.len()), b'u'); } }
+                4 => { let g = *r.pick(&[&b"s8W-!"[..], b"s8W-\"", b"s8W-#", b"s8W.!", b"s8W-", b"s8W", b"s8", b"s", b"t", b"u", b"uu", b"rr"]); for (k, b) in g.iter().enumerate() { enc.insert((pos + k).min(enc.len()), *b); } }
+                5 => { if !enc.is_empty() { enc.remove(pos.min(enc.len() - 1)); } }
+                6 => { enc.truncate(pos); }
+                7 => { enc.insert(pos, b'~'); enc.insert((pos + 1).min(enc.len()), b'>'); }
+                8 => enc.push(*r.pick(&[b'\n', b' ', b'~', b'>'])),
+                9 => { if !enc.is_empty() { let p = pos.min(enc.len() - 1); enc[p] = r.byte(); } }
+                10 => enc.insert(pos, *r.pick(&[b' ', b'\n', b'\r', b'\t', 12u8, 11u8, 0u8])),
+                _ => { if !enc.is_empty() { let p = pos.min(enc.len() - 1); enc[p] = *r.pick(&[b'!', b'u', b't', b's']); } }
+            }
+        }
+        let res = a85_real(&enc);
+        let req = format!("a85 {}", hex_tok(&enc));
+        c.nontrivial(&req);
+        c.count("a85.malformed.cases");
+        match &res { Ok(Ok(_)) => c.count("a85.malformed.ok"), Ok(Err(_)) => c.count("a85.malformed.err"),
+            Err((site, msg)) => { c.oracle_fail(&format!("panic@{}", site), msg, json!({"encoded": hex(&enc)})); } }
+        c.corr(req, out_reply(&res));
+    }
+}
+
+// ---------------------------------------------------------------- PNG rows and frames
+
+fn ft(t: u8) -> png::FilterType {
+    match t { 0 => png::FilterType::None, 1 => png::FilterType::Sub, 2 => png::FilterType::Up, 3 => png::FilterType::Avg, _ => png::FilterType::Paeth }
+}
+fn gen_row(r: &mut Rng, n: usize) -> Vec<u8> {
+    let mode = r.below(5);
+    (0..n).map(|i| match mode { 0 | 1 => r.byte(), 2 => *r.pick(&[0u8, 1, 127, 128, 254, 255]), 3 => (i * 37) as u8, _ => if r.chance(1, 2) { 255 } else { r.byte() } }).collect()
+}
+fn real_row(t: u8, bpp: usize, prev: &[u8], cur: &[u8]) -> Result<Vec<u8>, (String, String)> {
+    let mut cur = cur.to_vec();
+    guard(move || { png::decode_row(ft(t), bpp, prev, &mut cur); cur })
+}
+fn run_png(c: &mut Ctx) {
+    // rows: encoded by the reference encoder (round trip) and arbitrary filtered bytes (reference decoder)
+    for i in 0..c.n(3000, 60000) {
+        let Some(mut r) = c.case("pngrow", i) else { continue };
+        let t = r.below(5) as u8;
+        let bpp = 1 + r.usize(8);
+        let n = match r.below(24) { 0 => r.usize(3), 1 => bpp, 2 => bpp.saturating_sub(1), 3 => bpp + 1, _ => bpp + r.usize(40) };
+        let prev = gen_row(&mut r, n);
+        let orig = gen_row(&mut r, n);
+        let from_encoder = r.chance(1, 2);
+        let filt = if from_encoder { ref_encode_row(t, bpp, &prev, &orig) } else { orig.clone() };
+        let expect = if from_encoder { orig.clone() } else { ref_decode_row(t, bpp, &prev, &filt) };
+        let req = format!("pngrow {} {} {} {}", t, bpp, hex_tok(&prev), hex_tok(&filt));
+        if n > bpp { c.nontrivial(&req); }
+        c.count(&format!("pngrow.type{}", t));
+        if n <= bpp { c.count("pngrow.len_le_bpp"); }
+        match real_row(t, bpp, &prev, &filt) {
+            Ok(v) => {
+                c.corr(req.clone(), format!("ok {}", hex_tok(&v)));
+                if v != expect {
+                    c.oracle_fail(&format!("png-row-type{}", t), "decode_row differs from the PNG specification's reconstruction",
+                        json!({"type": t, "bpp": bpp, "prev": hex(&prev), "filtered": hex(&filt), "expected": hex(&expect), "actual": hex(&v)}));
+                }
+            }
+            Err((site, msg)) => { c.corr(req.clone(), "panic".into()); c.oracle_fail(&format!("panic@{}", site), &msg, json!({"request": req})); }
+        }
+    }
+    // outside the property (bpp = 0, previous shorter / longer than current): correspondence only
+    for i in 0..c.n(300, 3000) {
+        let Some(mut r) = c.case("pngrow.odd", i) else { continue };
+        let t = r.below(5) as u8;
+        let bpp = r.usize(4);
+        let n = r.usize(12);
+        let np = if r.chance(1, 2) { n } else { r.usize(14) };
+        let prev = gen_row(&mut r, np);
+        let filt = gen_row(&mut r, n);
+        let req = format!("pngrow {} {} {} {}", t, bpp, hex_tok(&prev), hex_tok(&filt));
+        c.nontrivial(&req);
+        match real_row(t, bpp, &prev, &filt) {
+            Ok(v) => { c.count("pngrow.odd.ok"); c.corr(req, format!("ok {}", hex_tok(&v))) }
+            Err(_) => { c.count("pngrow.odd.panic"); c.corr(req, "panic".into()) }
+        }
+    }
+    // frames
+    for i in 0..c.n(1500, 20000) {
+        let Some(mut r) = c.case("pngframe", i) else { continue };
+        let bpp = 1 + r.usize(8);
+        let ppr = 1 + r.usize(6);
+        let rowlen = bpp * ppr;
+        let rows = r.usize(6);
+        let data = gen_row(&mut r, rows * rowlen);
+        let types: Vec<u8> = if r.chance(1, 3) { vec![r.below(5) as u8] } else { (0..7).map(|_| r.below(5) as u8).collect() };
+        let mut enc = ref_encode_frame(&data, bpp, rowlen, &types);
+        let malformed = r.chance(1, 4);
+        if malformed && !enc.is_empty() {
+            match r.below(4) {
+                0 => { let k = r.usize(enc.len()); enc.truncate(k); }
+                1 => { let row = r.usize(rows.max(1)); let p = (row * (rowlen + 1)).min(enc.len() - 1); enc[p] = 5 + r.below(251) as u8; }
+                2 => enc.push(r.below(5) as u8),
+                _ => { let p = r.usize(enc.len()); enc[p] = r.byte(); }
+            }
+        }
+        let req = format!("pngframe {} {} {}", bpp, ppr, hex_tok(&enc));
+        if rows >= 2 { c.nontrivial(&req); }
+        let res = guard(|| png::decode_frame(&enc, bpp, ppr));
+        let reply = match &res {
+            Ok(Ok(v)) => format!("ok {}", hex_tok(v)),
+            Ok(Err(e)) => format!("err {}", match e.kind() { std::io::ErrorKind::InvalidData => "invalid", std::io::ErrorKind::UnexpectedEof => "eof", _ => "other" }),
+            Err(_) => "panic".into(),
+        };
+        c.count(&format!("pngframe.{}", reply.split(' ').take(if reply.starts_with("err") { 2 } else { 1 }).collect::<Vec<_>>().join("_")));
+        c.corr(req.clone(), reply);
+        if !malformed {
+            match &res {
+                Ok(Ok(v)) if *v == data => {}
+                Ok(Ok(v)) => c.oracle_fail("png-frame", "decode_frame of a reference-encoded frame is not the original",
+                    json!({"bpp": bpp, "ppr": ppr, "types": types, "plain": hex(&data), "encoded": hex(&enc), "actual": hex(v)})),
+                Ok(Err(e)) => c.oracle_fail("png-frame-error", "decode_frame rejects a reference-encoded frame", json!({"request": req, "error": format!("{}", e)})),
+                Err((site, msg)) => c.oracle_fail(&format!("panic@{}", site), msg, json!({"request": req})),
+            }
+        } else if let Err((site, msg)) = &res {
+            c.oracle_fail(&format!("panic@{}", site), msg, json!({"request": req}));
+        }
+    }
+    // bpp = 0 frames (public function only): correspondence
+    for i in 0..c.n(100, 1000) {
+        let Some(mut r) = c.case("pngframe.bpp0", i) else { continue };
+        let enc: Vec<u8> = (0..r.usize(6)).map(|_| r.below(6) as u8).collect();
+        let ppr = r.usize(3);
+        let req = format!("pngframe 0 {} {}", ppr, hex_tok(&enc));
+        let res = guard(|| png::decode_frame(&enc, 0, ppr));
+        let reply = match &res {
+            Ok(Ok(v)) => format!("ok {}", hex_tok(v)),
+            Ok(Err(e)) => format!("err {}", match e.kind() { std::io::ErrorKind::InvalidData => "invalid", std::io::ErrorKind::UnexpectedEof => "eof", _ => "other" }),
+            Err(_) => "panic".into(),
+        };
+        c.corr(req, reply);
+    }
+}
+
+// ---------------------------------------------------------------- filter chains
+
+#[derive(Clone, Debug)]
+struct Parms { predictor: Option<i64>, columns: Option<i64>, colors: Option<i64>, bits: Option<i64>, early: Option<i64> }
+impl Parms {
+    fn none() -> Parms { Parms { predictor: None, columns: None, colors: None, bits: None, early: None } }
+    fn dict(&self, r: &mut Rng) -> Dictionary {
+        let mut items: Vec<(&str, i64)> = vec![];
+        if let Some(v) = self.predictor { items.push(("Predictor", v)); }
+        if let Some(v) = self.columns { items.push(("Columns", v)); }
+        if let Some(v) = self.colors { items.push(("Colors", v)); }
+        if let Some(v) = self.bits { items.push(("BitsPerComponent", v)); }
+        if let Some(v) = self.early { items.push(("EarlyChange", v)); }
+        r.shuffle(&mut items);
+        let mut d = Dictionary::new();
+        for (k, v) in items { d.set(k, Object::Integer(v)); }
+        d
+    }
+    fn png_active(&self) -> bool { matches!(self.predictor, Some(10..=15)) }
+    /// (bytes per pixel, bytes per row) as ISO 32000 / PNG define them for 8 and 16 bit components
+    fn geometry(&self) -> (usize, usize) {
+        let colors = self.colors.unwrap_or(1).max(1) as usize;
+        let bits = self.bits.unwrap_or(8).clamp(1, 64) as usize;
+        let columns = self.columns.unwrap_or(1).max(1) as usize;
+        (((colors * bits + 7) / 8).max(1), (columns * colors * bits + 7) / 8)
+    }
+    fn early(&self) -> bool { self.early.map(|v| v != 0).unwrap_or(true) }
+    fn is_default_equivalent(&self) -> bool { !self.png_active() && self.predictor.map_or(true, |p| p == 1) && self.early() }
+}
+fn gen_parms(r: &mut Rng, legal_only: bool) -> Parms {
+    let predictor = match r.below(10) { 0 => None, 1 => Some(1), _ => Some(10 + r.below(6) as i64) };
+    let mut p = Parms {
+        predictor,
+        columns: if r.chance(1, 6) { None } else { Some(1 + r.below(12) as i64) },
+        colors: if r.chance(1, 4) { None } else { Some(1 + r.below(4) as i64) },
+        bits: match r.below(4) { 0 => None, 1 | 2 => Some(8), _ => Some(16) },
+        early: match r.below(4) { 0 | 1 => None, 2 => Some(1), _ => Some(0) },
+    };
+    if !legal_only {
+        match r.below(6) {
+            0 => p.predictor = Some(*r.pick(&[2i64, 0, 9, 16, -1, 3])),
+            1 => p.bits = Some(*r.pick(&[1i64, 2, 4, 0, -8, 12, 32])),
+            2 => p.columns = Some(*r.pick(&[0i64, -3])),
+            3 => p.colors = Some(*r.pick(&[0i64, -1, 5, 7])),
+            4 => p.early = Some(*r.pick(&[2i64, -1, 7])),
+            _ => {}
+        }
+    }
+    p
+}
+const FILTERS: [&[u8]; 3] = [b"FlateDecode", b"LZWDecode", b"ASCII85Decode"];
+
+/// encode `plain` for the chain: decoding order is `chain`, so encode in reverse; `parms[i]` is what
+/// stage `i` will be decoded with (predictor applied after the Flate / LZW stage).
+fn encode_chain(r: &mut Rng, plain: &[u8], chain: &[usize], parms: &[Parms], types: &[u8]) -> Vec<u8> {
+    let mut data = plain.to_vec();
+    for (i, f) in chain.iter().enumerate().rev() {
+        let p = &parms[i];
+        match f {
+            0 | 1 => {
+                if p.png_active() { let (bpp, rowlen) = p.geometry(); data = ref_encode_frame(&data, bpp, rowlen, types); }
+                data = if *f == 0 { zlib_encode(&data, *r.pick(&[0u32, 1, 6, 9])) } else { lzw_encode(&data, p.early()) };
+            }
+            _ => { let st = gen_style(r); data = ref_a85_encode(&data, st); }
+        }
+    }
+    data
+}
+/// number of predictor-active Flate/LZW stages (the plaintext must be a whole number of rows for each)
+fn gen_plain_rows(r: &mut Rng, rowlen: usize, long: bool) -> Vec<u8> {
+    let rows = if long { 40 + r.usize(200) } else { r.usize(7) };
+    gen_row(r, rows * rowlen)
+}
+
+enum Form { NoParms, Dict, Array }
+
+fn build_stream(r: &mut Rng, chain: &[usize], parms: &[Parms], form: &Form, content: Vec<u8>) -> Stream {
+    let mut d = Dictionary::new();
+    let names: Vec<Object> = chain.iter().map(|f| Object::Name(FILTERS[*f].to_vec())).collect();
+    let filter = if chain.len() == 1 && r.chance(2, 3) { names[0].clone() } else { Object::Array(names) };
+    let mut entries: Vec<(&str, Object)> = vec![("Filter", filter)];
+    match form {
+        Form::NoParms => {}
+        Form::Dict => entries.push(("DecodeParms", Object::Dictionary(parms[0].dict(r)))),
+        Form::Array => {
+            let arr: Vec<Object> = chain.iter().enumerate().map(|(i, f)| {
+                if *f == 2 || (parms[i].predictor.is_none() && parms[i].early.is_none() && r.chance(1, 2)) { Object::Null } else { Object::Dictionary(parms[i].dict(r)) }
+            }).collect();
+            entries.push(("DecodeParms", Object::Array(arr)));
+        }
+    }
+    if r.chance(1, 3) { entries.push(("Type", Object::Name(b"XObject".to_vec()))); }
+    if r.chance(1, 4) { entries.push(("Length", Object::Integer(r.range(0, 99)))); }
+    r.shuffle(&mut entries);
+    for (k, v) in entries { d.set(k, v); }
+    Stream::new(d, content)
+}
+
+/// run decode / plain / decompress on the real code, record correspondence, return decoded result
+fn decode_and_corr(c: &mut Ctx, s: &Stream) -> Result<Result<Vec<u8>, lopdf::Error>, (String, String)> {
+    let ext = ext_for(s).text();
+    let tok = stream_tok(s);
+    let res = guard(|| s.decompressed_content());
+    c.corr(format!("decode {} {}", tok, ext), out_reply(&res));
+    let res2 = guard(|| s.get_plain_content());
+    c.corr(format!("plain {} {}", tok, ext), out_reply(&res2));
+    let mut s2 = s.clone();
+    let res3 = guard(move || { let r = s2.decompress(); (r, s2) });
+    let reply = match &res3 { Ok((Ok(()), s2)) => format!("ok {}", stream_tok(s2)), Ok((Err(_), _)) => "err".into(), Err(_) => "panic".into() };
+    c.corr(format!("decompress {} {}", tok, ext), reply);
+    // oracle part that needs no plaintext: after a successful decompress the stream is plain and Length is right
+    if let Ok((Ok(()), s2)) = &res3 {
+        let len_ok = matches!(s2.dict.get(b"Length"), Ok(Object::Integer(n)) if *n == s2.content.len() as i64);
+        if !len_ok || s2.dict.has(b"Filter") || s2.dict.has(b"DecodeParms") {
+            c.oracle_fail("decompress-dict", "after decompress: Length != |content| or Filter / DecodeParms still present", json!({"before": tok, "after": stream_tok(s2)}));
+        }
+        if let Ok(Ok(v)) = &res { if *v != s2.content { c.oracle_fail("decompress-content", "decompress stored something else than decompressed_content", json!({"before": tok})); } }
+        if let Err(_) | Ok(Err(_)) = &res { c.oracle_fail("decompress-content", "decompress succeeded although decompressed_content failed", json!({"before": tok})); }
+    } else if let Ok((Err(_), s2)) = &res3 {
+        if stream_tok(s2) != tok { c.oracle_fail("decompress-partial", "failed decompress modified the stream", json!({"before": tok, "after": stream_tok(s2)})); }
+    }
+    res
+}
+
+fn chain_name(chain: &[usize]) -> String { chain.iter().map(|f| ["Fl", "LZW", "A85"][*f]).collect::<Vec<_>>().join("+") }
+
+fn run_chains(c: &mut Ctx) {
+    // ---- main stream: legal chains; parameters none / dictionary / array of default-equivalent entries
+    for i in 0..c.n(2500, 40000) {
+        let Some(mut r) = c.case("chain", i) else { continue };
+        let len = 1 + r.usize(3);
+        let chain: Vec<usize> = (0..len).map(|_| r.usize(3)).collect();
+        let form = match r.below(6) { 0 => Form::NoParms, 1 => Form::Array, _ => Form::Dict };
+        let mut shared = gen_parms(&mut r, true);
+        // ONE dictionary is applied after every Flate / LZW stage; intermediate data is not row-aligned,
+        // so with a predictor and more than one stage in total use 1-byte rows (every length is whole rows)
+        if shared.png_active() && len > 1 && !(chain[len - 1] < 2 && chain[..len - 1].iter().all(|f| *f == 2)) {
+            shared.columns = Some(1); shared.colors = if r.chance(1, 2) { None } else { Some(1) }; shared.bits = if r.chance(1, 2) { None } else { Some(8) };
+        }
+        let parms: Vec<Parms> = match form {
+            Form::NoParms => vec![Parms::none(); len],
+            Form::Dict => vec![shared.clone(); len],
+            // array form in the main stream: entries that change nothing (null, Predictor 1, EarlyChange 1, geometry keys only)
+            Form::Array => (0..len).map(|_| { let mut p = gen_parms(&mut r, true); if p.png_active() { p.predictor = if r.chance(1, 2) { Some(1) } else { None }; } if p.early == Some(0) { p.early = Some(1); } p }).collect(),
+        };
+        // a dictionary's predictor is applied after EVERY Flate / LZW stage: keep the plaintext row-aligned
+        let (_, rowlen) = if parms[0].png_active() { parms[0].geometry() } else { (1, 1) };
+        let long = r.chance(1, 12);
+        let plain = gen_plain_rows(&mut r, rowlen.max(1), long);
+        let types: Vec<u8> = match shared.predictor { Some(15) | None => (0..5).map(|_| r.below(5) as u8).collect(), Some(p @ 10..=14) => if r.chance(2, 3) { vec![(p - 10) as u8] } else { (0..5).map(|_| r.below(5) as u8).collect() }, _ => vec![0] };
+        let content = encode_chain(&mut r, &plain, &chain, &parms, &types);
+        let s = build_stream(&mut r, &chain, &parms, &form, content);
+        let key = format!("{} {}", stream_tok(&s), hex(&plain));
+        if !plain.is_empty() { c.nontrivial(&key); }
+        c.count(&format!("chain.len{}", len));
+        c.count(&format!("chain.form.{}", match form { Form::NoParms => "none", Form::Dict => "dict", Form::Array => "array-default-equivalent" }));
+        if parms[0].png_active() && chain.iter().any(|f| *f < 2) {
+            c.count(&format!("chain.predictor{}", parms[0].predictor.unwrap()));
+            let (bpp, _) = parms[0].geometry(); c.count(&format!("chain.bpp{}", bpp));
+            if parms[0].bits == Some(16) { c.count("chain.bits16"); }
+        }
+        if chain.contains(&1) { c.count(if parms[chain.iter().position(|f| *f == 1).unwrap()].early() { "chain.lzw.early1" } else { "chain.lzw.early0" }); }
+        if long { c.count("chain.long"); }
+        let res = decode_and_corr(c, &s);
+        match &res {
+            Ok(Ok(v)) if *v == plain => {}
+            Ok(Ok(v)) => c.oracle_fail("chain-wrong", "decoded content differs from the plaintext the reference encoders started from",
+                json!({"chain": chain_name(&chain), "parms": format!("{:?}", parms), "stream": stream_tok(&s), "plain": hex(&plain), "decoded": hex(v)})),
+            Ok(Err(e)) => c.oracle_fail("chain-error", "decoder rejects reference-encoded content",
+                json!({"chain": chain_name(&chain), "parms": format!("{:?}", parms), "stream": stream_tok(&s), "plain": hex(&plain), "error": format!("{}", e)})),
+            Err((site, msg)) => c.oracle_fail(&format!("panic@{}", site), msg, json!({"stream": stream_tok(&s)})),
+        }
+        if i < 3 {
+            let t = stream_tok(&s);
+            let t = if t.len() < 300 { t } else { format!("{}…", &t[..300]) };
+            c.sample(json!({"stream": "chain", "chain": chain_name(&chain), "parms": format!("{:?}", parms[0]), "plain_len": plain.len(), "request": t}));
+        }
+    }
+    // ---- outside the property's parameter domain / malformed content: correspondence + no panic
+    for i in 0..c.n(1200, 15000) {
+        let Some(mut r) = c.case("chain.odd", i) else { continue };
+        let len = r.usize(4);
+        let chain: Vec<usize> = (0..len).map(|_| r.usize(3)).collect();
+        let shared = gen_parms(&mut r, false);
+        let parms = vec![shared.clone(); len.max(1)];
+        let n = r.usize(60); let plain = gen_row(&mut r, n);
+        let types: Vec<u8> = (0..5).map(|_| r.below(5) as u8).collect();
+        let mut content = if len > 0 { encode_chain(&mut r, &plain, &chain, &parms, &types) } else { plain.clone() };
+        if r.chance(1, 2) && !content.is_empty() {
+            match r.below(4) { 0 => { let k = r.usize(content.len()); content.truncate(k); } 1 => { let p = r.usize(content.len()); content[p] ^= 1 << r.below(8); } 2 => content.push(r.byte()), _ => { let k = r.usize(20); content = r.bytes(k); } }
+        }
+        let form = match r.below(5) { 0 => Form::NoParms, 1 => Form::Array, _ => Form::Dict };
+        let mut s = if len > 0 { build_stream(&mut r, &chain, &parms, &form, content) } else { Stream::new(Dictionary::new(), content) };
+        match r.below(10) {
+            0 => s.dict.set("Filter", Object::Array(vec![])),
+            1 => s.dict.set("Filter", Object::Name(b"DCTDecode".to_vec())),
+            2 => s.dict.set("Filter", Object::Array(vec![Object::Name(b"FlateDecode".to_vec()), Object::Integer(3)])),
+            3 => s.dict.set("Filter", Object::Integer(1)),
+            4 => s.dict.set("DecodeParms", Object::Reference((9, 0))),
+            5 => s.dict.set("DecodeParms", Object::Dictionary({ let mut d = shared.dict(&mut r); d.set("Predictor", Object::Real(12.0)); d })),
+            6 => s.dict.set("Filter", Object::Array(vec![Object::Name(b"ASCIIHexDecode".to_vec()), Object::Name(b"FlateDecode".to_vec())])),
+            7 => { s.dict.remove(b"Filter"); }
+            _ => {}
+        }
+        c.nontrivial(&stream_tok(&s));
+        let ftok = stream_tok(&s);
+        let fr = guard(|| s.filters().map(|v| v.iter().map(|f| f.to_vec()).collect::<Vec<_>>()));
+        let freply = match &fr { Ok(Ok(v)) => format!("ok {}{} {}", v.len(), v.iter().map(|f| format!(" {}", hex_tok(f))).collect::<String>(), if s.is_compressed() { "c" } else { "u" }), Ok(Err(_)) => "err".into(), Err(_) => "panic".into() };
+        c.corr(format!("filters {}", ftok), freply);
+        let res = decode_and_corr(c, &s);
+        match &res { Ok(Ok(_)) => c.count("chain.odd.ok"), Ok(Err(_)) => c.count("chain.odd.err"),
+            Err((site, msg)) => c.oracle_fail(&format!("panic@{}", site), msg, json!({"stream": stream_tok(&s)})) }
+    }
+}
+fn run_parms_array(c: &mut Ctx) {
+    // ---- array form with per-stage parameters that matter: F-C09-b territory (separate stream)
+    for i in 0..c.n(60, 100) {
+        let Some(mut r) = c.case("chain.parms_array", i) else { continue };
+        let len = 1 + r.usize(3);
+        let mut chain: Vec<usize> = (0..len).map(|_| r.usize(3)).collect();
+        if !chain.iter().any(|f| *f < 2) { chain[0] = r.usize(2); }
+        let mut parms: Vec<Parms> = (0..len).map(|_| gen_parms(&mut r, true)).collect();
+        // only the final stage sees row-aligned data (the plaintext); earlier stages get 1-byte rows or no predictor
+        for k in 0..len - 1 {
+            if parms[k].png_active() { if r.chance(1, 2) { parms[k].predictor = Some(1); } else { parms[k].columns = Some(1); parms[k].colors = None; parms[k].bits = None; } }
+        }
+        let last_rowlen = if chain[len - 1] < 2 && parms[len - 1].png_active() { parms[len - 1].geometry().1 } else { 1 };
+        let rows = if r.chance(1, 3) { 600 / last_rowlen + r.usize(20) } else { 1 + r.usize(5) };
+        let plain = gen_row(&mut r, rows * last_rowlen);
+        let types: Vec<u8> = (0..5).map(|_| r.below(5) as u8).collect();
+        let content = encode_chain(&mut r, &plain, &chain, &parms, &types);
+        let s = build_stream(&mut r, &chain, &parms, &Form::Array, content);
+        c.nontrivial(&stream_tok(&s));
+        let matters = chain.iter().enumerate().any(|(k, f)| *f < 2 && !parms[k].is_default_equivalent());
+        c.count(if matters { "parms_array.nontrivial" } else { "parms_array.default_equivalent" });
+        let res = decode_and_corr(c, &s);
+        match &res {
+            Ok(Ok(v)) if *v == plain => { if matters { c.count("parms_array.nontrivial_but_decoded_right"); } }
+            Ok(_) => {
+                let sig = if matters { "parms-array-ignored" } else { "chain-wrong" };
+                c.oracle_fail(sig, "DecodeParms given as an array parallel to the filters: decoded content differs from the plaintext",
+                    json!({"chain": chain_name(&chain), "parms": format!("{:?}", parms), "stream": stream_tok(&s), "plain": hex(&plain)}));
+            }
+            Err((site, msg)) => c.oracle_fail(&format!("panic@{}", site), msg, json!({"stream": stream_tok(&s)})),
+        }
+    }
+}
+
+// ---------------------------------------------------------------- compress / set_content / documents
+
+fn gen_content(r: &mut Rng) -> Vec<u8> {
+    match r.below(8) {
+        0 => vec![],
+        1 => { let k = r.usize(80); r.bytes(k) }
+        2 => { let n = r.usize(120); let b = r.byte(); vec![b; n] }
+        3 => { let n = 20 + r.usize(60); let k = 1 + r.usize(3); let pat = r.bytes(k); (0..n).map(|i| pat[i % pat.len()]).collect() }
+        4 => { let n = r.usize(400); (0..n).map(|i| b"BT /F1 12 Tf 72 712 Td (Hello) Tj ET\n"[i % 36]).collect() }
+        5 => { let k = 200 + r.usize(300); r.bytes(k) }
+        6 => { let n = r.usize(60); (0..n).map(|_| if r.chance(4, 5) { b' ' } else { r.byte() }).collect() }
+        _ => { let n = 25 + r.usize(20); (0..n).map(|i| (i / 3) as u8).collect() }
+    }
+}
+fn gen_extra_dict(r: &mut Rng, d: &mut Dictionary) {
+    let mut e: Vec<(&str, Object)> = vec![];
+    if r.chance(1, 2) { e.push(("Type", Object::Name(b"XObject".to_vec()))); }
+    if r.chance(1, 3) { e.push(("Subtype", Object::Name(b"Form".to_vec()))); }
+    if r.chance(1, 4) { e.push(("BBox", Object::Array(vec![Object::Integer(0), Object::Integer(0), Object::Integer(10), Object::Integer(10)]))); }
+    r.shuffle(&mut e);
+    for (k, v) in e { d.set(k, v); }
+}
+fn length_ok(s: &Stream) -> bool { matches!(s.dict.get(b"Length"), Ok(Object::Integer(n)) if *n == s.content.len() as i64) }
+
+/// a stream for the compress / set_* experiments. `stale_parms` adds a DecodeParms although there is no Filter.
+fn gen_edit_stream(r: &mut Rng, allow_filter: bool, stale_parms: bool) -> (Stream, Option<Vec<u8>>) {
+    let mut d = Dictionary::new();
+    gen_extra_dict(r, &mut d);
+    let plain = gen_content(r);
+    if allow_filter && r.chance(1, 3) {
+        // an already filtered stream
+        let chain = vec![r.usize(3)];
+        let p = if r.chance(1, 2) { gen_parms(r, true) } else { Parms::none() };
+        let (_, rowlen) = if p.png_active() { p.geometry() } else { (1, 1) };
+        let plain = gen_plain_rows(r, rowlen, false);
+        let t = r.below(5) as u8;
+        let content = encode_chain(r, &plain, &chain, &[p.clone()], &[t]);
+        let form = if p.predictor.is_some() || p.early.is_some() { Form::Dict } else { Form::NoParms };
+        let mut s = build_stream(r, &chain, &[p], &form, content);
+        for (k, v) in d.iter() { if !s.dict.has(k) { s.dict.set(k.clone(), v.clone()); } }
+        return (s, Some(plain));
+    }
+    if stale_parms { d.set("DecodeParms", Object::Dictionary(gen_parms(r, true).dict(r))); }
+    else if r.chance(1, 8) { d.set("DecodeParms", Object::Dictionary({ let mut p = gen_parms(r, true); if p.png_active() { p.predictor = Some(1); } p.dict(r) })); }
+    let mut s = Stream::new(d, plain.clone());
+    if r.chance(1, 6) { s.dict.set("Length", Object::Integer(r.range(0, 500))); }       // a wrong Length before the operation
+    (s, Some(plain))
+}
+
+fn compress_case(c: &mut Ctx, s: &Stream, stream: &str, stale_sig: bool) {
+    let before_plain = guard(|| s.get_plain_content());
+    let mut tab = ext_for(s);
+    tab.add("d", &s.content, zlib_best(&s.content));
+    let tok = stream_tok(s);
+    let mut s2 = s.clone();
+    let res = guard(move || { let r = s2.compress(); (r, s2) });
+    let (ok, s2) = match res { Ok((r, s2)) => (r.is_ok(), s2), Err((site, msg)) => { c.corr(format!("compress {} {}", tok, tab.text()), "panic".into()); c.oracle_fail(&format!("panic@{}", site), &msg, json!({"stream": tok})); return; } };
+    let changed = stream_tok(&s2) != tok;
+    // the decoder of the result needs flate2's answer on the new content
+    if changed { tab.add("z", &s2.content, ext_inflate(&s2.content)); }
+    c.corr(format!("compress {} {}", tok, tab.text()), if ok { format!("ok {}", stream_tok(&s2)) } else { "err".into() });
+    c.count(&format!("{}.{}", stream, if changed { "compressed" } else { "unchanged" }));
+    if s.content.len() as i64 - zlib_best(&s.content).len() as i64 == 19 && !s.dict.has(b"Filter") { c.count("compress.exactly_at_margin"); }
+    // oracle
+    if s2.content.len() > s.content.len() {
+        c.oracle_fail("compress-longer", "compress made the content longer", json!({"before": tok, "after": stream_tok(&s2)}));
+    }
+    if changed {
+        if !length_ok(&s2) { c.oracle_fail("length", "Length != |content| after compress", json!({"before": tok, "after": stream_tok(&s2)})); }
+        // the serialised object must not grow: the added entry `/Filter/FlateDecode` costs 19 bytes
+        if s2.content.len() + 19 > s.content.len() { c.oracle_fail("compress-longer", "compressed content + the 19 bytes of /Filter/FlateDecode exceed the original", json!({"before": tok})); }
+    }
+    let after_plain = guard(|| s2.get_plain_content());
+    let same = match (&before_plain, &after_plain) { (Ok(Ok(a)), Ok(Ok(b))) => a == b, (Ok(Err(_)), Ok(Err(_))) => true, _ => false };
+    if !same {
+        let sig = if stale_sig && changed && !s.dict.has(b"Filter") && s.dict.has(b"DecodeParms") { "compress-stale-decodeparms" } else { "compress-lossy" };
+        c.oracle_fail(sig, "get_plain_content after compress differs from before", json!({"before": tok, "after": stream_tok(&s2),
+            "plain_before": format!("{:?}", before_plain.as_ref().map(|r| r.as_ref().map(|v| hex(v)).map_err(|e| e.to_string()))),
+            "plain_after": format!("{:?}", after_plain.as_ref().map(|r| r.as_ref().map(|v| hex(v)).map_err(|e| e.to_string())))}));
+    }
+    if changed {
+        let ext2 = ext_for(&s2).text();
+        c.corr(format!("plain {} {}", stream_tok(&s2), ext2), out_reply(&after_plain));
+    }
+}
+
+fn run_edit(c: &mut Ctx) {
+    // compress: random streams
+    for i in 0..c.n(1500, 20000) {
+        let Some(mut r) = c.case("compress", i) else { continue };
+        let (s, _) = gen_edit_stream(&mut r, true, false);
+        c.nontrivial(&stream_tok(&s));
+        compress_case(c, &s, "compress", false);
+    }
+    // compress: sweep across the `+19 <` boundary (run of one byte, and a 2-byte pattern), every length 0..=120
+    for i in 0..c.n(242, 242) {
+        let Some(mut r) = c.case("compress.boundary", i) else { continue };
+        let n = (i / 2) as usize;
+        let content: Vec<u8> = if i % 2 == 0 { vec![b'a'; n] } else { (0..n).map(|k| if k % 2 == 0 { b'x' } else { b'y' }).collect() };
+        let mut d = Dictionary::new();
+        gen_extra_dict(&mut r, &mut d);
+        let s = Stream::new(d, content);
+        c.nontrivial(&stream_tok(&s));
+        compress_case(c, &s, "compress.boundary", false);
+    }
+    // compress: incompressible random content built to sit around the margin
+    for i in 0..c.n(300, 3000) {
+        let Some(mut r) = c.case("compress.margin", i) else { continue };
+        // k random bytes followed by a run: compressed size ~ k + const, so total length sweeps the margin
+        let k = r.usize(30);
+        let mut content = r.bytes(k);
+        content.extend(std::iter::repeat(r.byte()).take(r.usize(60)));
+        let s = Stream::new(Dictionary::new(), content);
+        compress_case(c, &s, "compress.margin", false);
+    }
+    // set_content / set_plain_content
+    for i in 0..c.n(800, 8000) {
+        let Some(mut r) = c.case("setcontent", i) else { continue };
+        let stale = r.chance(1, 3);
+        let (s, _) = gen_edit_stream(&mut r, true, stale);
+        let newc = gen_content(&mut r);
+        let tok = stream_tok(&s);
+        c.nontrivial(&format!("{} {}", tok, hex(&newc)));
+        let mut a = s.clone();
+        a.set_content(newc.clone());
+        c.corr(format!("setcontent {} {}", tok, hex_tok(&newc)), format!("ok {}", stream_tok(&a)));
+        if !length_ok(&a) || a.content != newc { c.oracle_fail("length", "Length != |content| after set_content", json!({"before": tok, "after": stream_tok(&a)})); }
+        let mut b = s.clone();
+        b.set_plain_content(newc.clone());
+        c.corr(format!("setplain {} {}", tok, hex_tok(&newc)), format!("ok {}", stream_tok(&b)));
+        let plain = guard(|| b.get_plain_content());
+        if !length_ok(&b) || b.content != newc || b.dict.has(b"Filter") || b.dict.has(b"DecodeParms") || !matches!(&plain, Ok(Ok(v)) if *v == newc) {
+            c.oracle_fail("setplain", "after set_plain_content the stream is not the plain content with the right Length", json!({"before": tok, "after": stream_tok(&b)}));
+        }
+        // every key other than the three touched ones keeps its value
+        for (k, v) in s.dict.iter() {
+            if k != b"Length" && k != b"Filter" && k != b"DecodeParms" && b.dict.get(k).ok() != Some(v) {
+                c.oracle_fail("setplain", "set_plain_content lost an unrelated dictionary entry", json!({"before": tok, "after": stream_tok(&b)}));
+            }
+        }
+    }
+    // Document::compress / Document::decompress
+    for i in 0..c.n(400, 4000) {
+        let Some(mut r) = c.case("doc", i) else { continue };
+        let mut doc = Document::with_version("1.5");
+        let n = 1 + r.usize(6);
+        let mut deny: Vec<(u32, u16)> = vec![];
+        let mut tab = ExtTab::default();
+        let mut num = 0u32;
+        for _ in 0..n {
+            num += 1 + r.below(3) as u32;
+            let id = (num, if r.chance(1, 8) { 1 } else { 0 });
+            let o = match r.below(6) {
+                0 => Object::Integer(r.range(-5, 5)),
+                1 => { let mut d = Dictionary::new(); d.set("Filter", Object::Name(b"FlateDecode".to_vec())); d.set("Length", Object::Integer(3)); Object::Dictionary(d) }
+                _ => {
+                    let (mut s, _) = gen_edit_stream(&mut r, true, false);
+                    if r.chance(1, 8) { s.dict.set("Filter", Object::Name(b"DCTDecode".to_vec())); }
+                    if r.chance(1, 4) { s.allows_compression = false; deny.push(id); }
+                    Object::Stream(s)
+                }
+            };
+            doc.objects.insert(id, o);
+        }
+        for o in doc.objects.values() {
+            if let Object::Stream(s) = o {
+                for e in ext_for(s).0 { tab.add(&e.0, &e.1, e.2); }
+                tab.add("d", &s.content, zlib_best(&s.content));
+            }
+        }
+        let objs = show_objects(doc.objects.iter());
+        c.nontrivial(&objs);
+        let deny_txt = format!("{}{}", deny.len(), deny.iter().map(|(a, b)| format!(" {} {}", a, b)).collect::<String>());
+        let plains: Vec<_> = doc.objects.iter().map(|(id, o)| (*id, if let Object::Stream(s) = o { guard(|| s.get_plain_content()).ok().and_then(|r| r.ok()) } else { None })).collect();
+        // compress
+        let mut dc = doc.clone();
+        if let Err((site, msg)) = guard(|| dc.compress()) { c.oracle_fail(&format!("panic@{}", site), &msg, json!({"objects": objs})); continue; }
+        c.corr(format!("doccompress {} {} {}", objs, deny_txt, tab.text()), format!("ok {}", show_objects(dc.objects.iter())));
+        for ((id, o), (_, p)) in dc.objects.iter().zip(plains.iter()) {
+            let before = &doc.objects[id];
+            match (before, o) {
+                (Object::Stream(b), Object::Stream(a)) => {
+                    if !b.allows_compression && stream_tok(a) != stream_tok(b) { c.oracle_fail("doc-compress", "a stream with allows_compression = false was modified", json!({"objects": objs})); }
+                    if a.content.len() > b.content.len() { c.oracle_fail("compress-longer", "Document::compress made a stream longer", json!({"objects": objs})); }
+                    let ap = guard(|| a.get_plain_content()).ok().and_then(|r| r.ok());
+                    if ap != *p { c.oracle_fail("compress-lossy", "Document::compress changed the plain content of a stream", json!({"objects": objs, "id": format!("{:?}", id)})); }
+                    if stream_tok(a) != stream_tok(b) { c.count("doc.compressed_streams"); if !length_ok(a) { c.oracle_fail("length", "Length wrong after Document::compress", json!({"objects": objs})); } }
+                }
+                (b, a) => if show_obj(a) != show_obj(b) { c.oracle_fail("doc-compress", "Document::compress modified a non-stream object", json!({"objects": objs})); }
+            }
+        }
+        // decompress
+        let mut dd = doc.clone();
+        if let Err((site, msg)) = guard(|| dd.decompress()) { c.oracle_fail(&format!("panic@{}", site), &msg, json!({"objects": objs})); continue; }
+        c.corr(format!("docdecompress {} {}", objs, tab.text()), format!("ok {}", show_objects(dd.objects.iter())));
+        for ((id, o), (_, p)) in dd.objects.iter().zip(plains.iter()) {
+            let before = &doc.objects[id];
+            match (before, o) {
+                (Object::Stream(b), Object::Stream(a)) => {
+                    let filtered = matches!(b.filters(), Ok(v) if !v.is_empty());
+                    if filtered && p.is_some() {
+                        if Some(&a.content) != p.as_ref() || a.dict.has(b"Filter") || !length_ok(a) { c.oracle_fail("doc-decompress", "Document::decompress did not leave the plain content with the right Length", json!({"objects": objs, "id": format!("{:?}", id)})); }
+                        c.count("doc.decompressed_streams");
+                    } else if filtered && stream_tok(a) != stream_tok(b) {
+                        c.oracle_fail("doc-decompress", "Document::decompress modified a stream it cannot decode", json!({"objects": objs}));
+                    }
+                }
+                (b, a) => if show_obj(a) != show_obj(b) { c.oracle_fail("doc-decompress", "Document::decompress modified a non-stream object", json!({"objects": objs})); }
+            }
+        }
+    }
+}
+
+fn run_stale_parms(c: &mut Ctx) {
+    // compress with a DecodeParms entry but no Filter (the repaired F-C09-c: a failure here is a violation)
+    for i in 0..c.n(300, 3000) {
+        let Some(mut r) = c.case("compress.stale_parms", i) else { continue };
+        let (s, _) = gen_edit_stream(&mut r, false, true);
+        c.nontrivial(&stream_tok(&s));
+        compress_case(c, &s, "compress.stale_parms", true);
+    }
+}
+
+// ---------------------------------------------------------------- canonical witnesses
+
+fn run_witnesses(c: &mut Ctx) {
+    // regression: F-C09-a (repaired by e2fc7b5) — Average must halve the SUM of left and above
+    if let Some(_) = c.case("witness.avg", 0) {
+        let got = real_row(3, 1, &[100, 200], &[10, 20]);
+        let back = !matches!(&got, Ok(v) if v == &[60u8, 150]);
+        c.corr("pngrow 3 1 64c8 0a14".into(), match &got { Ok(v) => format!("ok {}", hex_tok(v)), Err(_) => "panic".into() });
+        c.witness("F-C09-a", back, &format!("decode_row(Avg, bpp 1, previous [100,200], filtered [10,20]) = {:?}, PNG specification: [60,150]", got));
+    }
+    // regression: F-C04-a / C09 (repaired by 87734a4) — group value above u32::MAX must be an error
+    if let Some(_) = c.case("witness.a85overflow", 0) {
+        let got = a85_real(b"s8W-\"~>");
+        let back = !matches!(&got, Ok(Err(_)));
+        c.corr(format!("a85 {}", hex(b"s8W-\"~>")), out_reply(&got));
+        c.witness("F-C09-a85-overflow", back, &format!("decode of ASCII85 `s8W-\"~>` (group value 2^32): {}", match &got { Ok(Ok(v)) => format!("Ok({})", hex(v)), Ok(Err(e)) => format!("Err({})", e), Err((s, m)) => format!("PANIC at {}: {}", s, m) }));
+        // neighbours: the largest legal group and the first illegal ones
+        for (g, want_ok) in [(&b"s8W-!~>"[..], true), (b"s8W-#~>", false), (b"s8W.!~>", false), (b"uuuuu~>", false), (b"rr~>", true), (b"s8~>", false)] {
+            let r = a85_real(g);
+            c.corr(format!("a85 {}", hex(g)), out_reply(&r));
+            if matches!(&r, Ok(Ok(_))) != want_ok || r.is_err() {
+                c.oracle_fail("a85-boundary", "ASCII85 group at the u32 boundary handled wrongly", json!({"input": String::from_utf8_lossy(g), "result": out_reply(&r)}));
+            }
+        }
+    }
+    // F-C09-b: DecodeParms as an array parallel to the filters is ignored
+    if let Some(_) = c.case("witness.parms_array", 0) {
+        let plain = vec![1u8, 2, 3, 4];
+        let enc = ref_encode_frame(&plain, 1, 2, &[2]);
+        let mut pd = Dictionary::new();
+        pd.set("Predictor", Object::Integer(12));
+        pd.set("Columns", Object::Integer(2));
+        let mut d = Dictionary::new();
+        d.set("Filter", Object::Array(vec![Object::Name(b"FlateDecode".to_vec())]));
+        d.set("DecodeParms", Object::Array(vec![Object::Dictionary(pd.clone())]));
+        let s = Stream::new(d, zlib_encode(&enc, 6));
+        let got = decode_and_corr(c, &s);
+        // the same stream with the dictionary form decodes correctly (control)
+        let mut d2 = Dictionary::new();
+        d2.set("Filter", Object::Array(vec![Object::Name(b"FlateDecode".to_vec())]));
+        d2.set("DecodeParms", Object::Dictionary(pd));
+        let s2 = Stream::new(d2, s.content.clone());
+        let ctl = decode_and_corr(c, &s2);
+        if !matches!(&ctl, Ok(Ok(v)) if *v == plain) { c.oracle_fail("chain-wrong", "control of the F-C09-b witness (dictionary form) does not decode", json!({"stream": stream_tok(&s2)})); }
+        let reproduced = !matches!(&got, Ok(Ok(v)) if *v == plain);
+        c.witness("F-C09-b", reproduced, &format!("Filter [/FlateDecode] DecodeParms [<</Predictor 12 /Columns 2>>], plaintext 01020304: decoded {}", out_reply(&got)));
+    }
+    // regression: F-C09-c (repaired by 7763e3b) — compress must drop a stale DecodeParms entry
+    // (same stream as Lean `Lopdf.wStale`: 40 bytes 0x09 — not a PNG filter type — Predictor 12, Columns 4)
+    if let Some(_) = c.case("witness.stale_parms", 0) {
+        let mut pd = Dictionary::new();
+        pd.set("Predictor", Object::Integer(12));
+        pd.set("Columns", Object::Integer(4));
+        let mut d = Dictionary::new();
+        d.set("DecodeParms", Object::Dictionary(pd));
+        let content = vec![9u8; 40];
+        let s = Stream::new(d, content.clone());
+        let mut s2 = s.clone();
+        let _ = s2.compress();
+        let compressed = s2.dict.has(b"Filter");
+        let after = guard(|| s2.get_plain_content());
+        let reproduced = compressed && !matches!(&after, Ok(Ok(v)) if *v == content);
+        if !compressed { c.oracle_fail("witness-setup", "the F-C09-c witness stream was not compressed (margin changed?)", json!({"stream": stream_tok(&s)})); }
+        compress_case(c, &s, "witness.stale_parms", true);
+        c.witness("F-C09-c", reproduced, &format!("<</DecodeParms <</Predictor 12 /Columns 4>> /Length 40>> with 40 bytes 0x09, no Filter: after compress() get_plain_content = {}", match &after { Ok(Ok(v)) => format!("Ok({} bytes)", v.len()), Ok(Err(e)) => format!("Err({})", e), Err(_) => "panic".into() }));
+    }
+}
+
+pub fn run(c: &mut Ctx) {
+    c.rule = "plaintexts x reference encoders (own PNG filter encoder incl. mixed rows, own ASCII85 encoder with z / layout variants, flate2, weezl \
+EarlyChange 0/1) x chains of length 1-3 over {Flate, LZW, ASCII85} x {no parms, dictionary, array} x Predictor {absent,1,10..15} x Columns 1-12 x Colors 1-4 x \
+BitsPerComponent 8/16; all 1-byte and (thorough) all 2-byte partial final ASCII85 groups, sampled 3-byte ones; rows through decode_row (encoded and arbitrary \
+filtered bytes, bpp 1-8); frames through decode_frame; malformed ASCII85 / frames / dictionaries; compress incl. a length sweep across the +19 margin; \
+set_content / set_plain_content; Document::compress / decompress. Non-trivial = non-empty plaintext (chains), row longer than bpp (rows), >=2 rows (frames), \
+any malformed / edit case; distinct by request text.".into();
+    run_witnesses(c);
+    run_a85(c);
+    run_png(c);
+    run_chains(c);
+    run_edit(c);
+    // streams inside known-finding territory come last and are small, so that they cannot crowd
+    // a new failure of the main streams out of the (capped) failure list
+    run_stale_parms(c);
+    run_parms_array(c);
+}
